@@ -16,6 +16,7 @@ static const PropDef* g_cur_prop = nullptr;
 static const std::vector<uint32_t>* g_cur_tape = nullptr;
 static std::string g_crash_path;
 static std::string g_target;
+static std::string g_corpus_dir;  // when set, sampled tapes are also written as libFuzzer seed inputs (little-endian words)
 
 static std::string json_escape(const std::string& s) {
   std::string o;
@@ -309,6 +310,17 @@ static int run_rc(const PropDef& p, const std::string& out, const std::string& r
   if (ok) {
     for (size_t i = 0; i < sample_tapes.size(); ++i) samples.push_back(sample_json(p, sample_tapes[i], ctx, sample_why[i].c_str()));
     if (!largest_tape.empty()) samples.push_back(sample_json(p, largest_tape, ctx, "largest (most tape words used)"));
+    if (!g_corpus_dir.empty()) {
+      auto dump = [&](const std::vector<uint32_t>& tp, size_t k) {
+        size_t used = 0; run_one(p, tp, ctx, &used);
+        size_t n = std::min(used, tp.size());
+        char nm[64]; std::snprintf(nm, sizeof nm, "/seed-%llu-%zu", (unsigned long long)worker, k);
+        std::ofstream f(g_corpus_dir + nm, std::ios::binary);
+        for (size_t i = 0; i < n; ++i) { unsigned char b[4] = {(unsigned char)(tp[i] & 255), (unsigned char)((tp[i] >> 8) & 255), (unsigned char)((tp[i] >> 16) & 255), (unsigned char)((tp[i] >> 24) & 255)}; f.write((const char*)b, 4); }
+      };
+      for (size_t i = 0; i < sample_tapes.size(); ++i) dump(sample_tapes[i], i);
+      if (!largest_tape.empty()) dump(largest_tape, 99);
+    }
   }
   std::string hash_file;
   if (!out.empty()) {
@@ -365,6 +377,7 @@ int harness_main(int argc, char** argv) {
     else if (a == "--replay") replay_file = next();
     else if (a == "--replay-dir") replay_dir = next();
     else if (a == "--kf") kf.push_back(next());
+    else if (a == "--corpus-dir") g_corpus_dir = next();
     else if (a == "--worker") worker = std::strtoull(next().c_str(), nullptr, 10);
     else if (a == "--workers") workers = std::strtoull(next().c_str(), nullptr, 10);
     else if (a == "--selftest") selftest = true;
